@@ -3,7 +3,7 @@
   Property theorems (helper lemmas are in Lemmas/Value.lean).  Unless a theorem is named `…_witness`, it is about the
   specification `Defects := {}`.
 -/
-import AxVerif.Lemmas.Value
+import AxVerif.Lemmas.ValueFloat
 namespace AxVerif.Value
 open AxVerif
 
@@ -275,8 +275,198 @@ theorem boolWriteWholeTail_witness :
     writeTo {} (.bool true) [0, 0] 0 = .ok (some ([1, 0], 1)) := by
   refine ⟨by decide, by decide⟩
 
+/-! ## Equality, ordering, hashing (types/macros/datatype.rs)
+
+`Value.ext` is the exact mathematical value of a numeric datum (an extended real; finite values as integer multiples
+of 2^-1074, so nothing is ever rounded); the specification compares numerics by `Ext.cmp` on it. -/
+
+/-- Equality is an equivalence on all values of all kinds (NULL, every NaN, both zeros included). -/
+theorem eq_equivalence :
+    (∀ a, eq {} a a = true) ∧
+    (∀ a b, eq {} a b = eq {} b a) ∧
+    (∀ a b c, eq {} a b = true → eq {} b c = true → eq {} a c = true) := by
+  refine ⟨fun a => (eq_iff_key a a).mpr rfl, fun a b => ?_, fun a b c h1 h2 => ?_⟩
+  · rw [Bool.eq_iff_iff, eq_iff_key, eq_iff_key]; exact eq_comm
+  · rw [eq_iff_key] at *; exact h1.trans h2
+
+/-- Ordering is a total order within each class (booleans; all numeric kinds together; blobs), consistent with
+    equality; NULL and values of different classes are unordered (`None`), as SQL requires:
+    (1) comparable exactly when same class and not NULL, (2) antisymmetric, (3) transitive,
+    (4) `Equal` exactly when `==`. -/
+theorem cmp_total_order :
+    (∀ a b, (partialCmp {} a b).isSome ↔ a.cls = b.cls ∧ a.cls ≠ 0) ∧
+    (∀ a b, partialCmp {} b a = (partialCmp {} a b).map Ordering.swap) ∧
+    (∀ a b c, partialCmp {} a b = some .lt → partialCmp {} b c = some .lt → partialCmp {} a c = some .lt) ∧
+    (∀ a b, partialCmp {} a b = some .eq ↔ eq {} a b = true ∧ a.cls ≠ 0) := by
+  refine ⟨fun a b => ?_, fun a b => ?_, fun a b c => ?_, fun a b => ?_⟩
+  · rw [partialCmp_key, EqKey.cmp_isSome_iff, eqKey_cls, eqKey_cls]
+  · rw [partialCmp_key, partialCmp_key, EqKey.cmp_swap]
+  · rw [partialCmp_key, partialCmp_key, partialCmp_key]; exact EqKey.cmp_lt_trans _ _ _
+  · rw [partialCmp_key, EqKey.cmp_eq_iff, eq_iff_key, eqKey_cls]
+
+/-- Numeric comparison across integer and floating kinds is comparison of the exact mathematical values. -/
+theorem cmp_is_mathematical (a b : Value) (x y : Ext) (ha : a.ext = some x) (hb : b.ext = some y) :
+    partialCmp {} a b = some (Ext.cmp x y) ∧ eq {} a b = (Ext.cmp x y == .eq) :=
+  ⟨partialCmp_numeric a b x y ha hb, eq_numeric a b x y ha hb⟩
+
+/-- In particular any two integers of any two integer kinds (Int, BigInt, UInt, BigUInt) compare as integers —
+    at every magnitude, 2^53 and beyond included. -/
+theorem int_cmp_exact (a b : Value) (i j : Int) (ha : a.intVal = some i) (hb : b.intVal = some j) :
+    partialCmp {} a b = some (icmp i j) ∧ (eq {} a b = true ↔ i = j) := by
+  rw [partialCmp_numeric a b _ _ (ext_int a i ha) (ext_int b j hb), eq_numeric a b _ _ (ext_int a i ha) (ext_int b j hb)]
+  simp only [Ext.cmp, icmp_scale, beq_iff_eq, icmp_eq_iff, and_self]
+
+/-- IEEE comparison on bit patterns (unordered on NaN; otherwise by sign, then exponent field and fraction read as
+    one magnitude) is the order of the exact values — for all non-NaN `f64` bit patterns. -/
+theorem ieeeCmp_is_value_order (a b : Nat) (ha : f64.isNaN a = false) (hb : f64.isNaN b = false) :
+    ieeeCmp a b = some (Ext.cmp (f64.ext a) (f64.ext b)) := ieeeCmp_eq_ext a b ha hb
+
+/-- `f32 as f64` is exact for every `f32` bit pattern (NaN ↦ NaN, ±∞ ↦ ±∞, subnormals included), hence so is
+    the cast Float → Double. -/
+theorem float_to_double_exact (D : Defects) (b : Nat) (hb : b < 4294967296) :
+    ∃ d, tryCast D (.float b) .double = .ok (.double d) ∧ f64.ext d = f32.ext b :=
+  ⟨widen b, rfl, widen_exact b hb⟩
+
+/-- Integers up to 2^53 in magnitude convert to `f64` exactly (the cast BigInt → Double preserves the value). -/
+theorem int_to_double_exact (D : Defects) (i : Int) (h : i.natAbs ≤ 9007199254740992) :
+    ∃ d, tryCast D (.bigint i) .double = .ok (.double d) ∧ f64.ext d = .fin (i * (unitScale : Int)) :=
+  ⟨intToFloat f64 i, rfl, f64_ext_intToFloat_small i h⟩
+
+/-- …and so does any integer, of any size, whose value is the value of some `f64` (no double rounding, no loss). -/
+theorem int_to_double_exact_if_representable (i : Int) (d : Nat) (h : f64.ext d = .fin (i * (unitScale : Int))) :
+    f64.ext (intToFloat f64 i) = .fin (i * (unitScale : Int)) := int_repr_exact i d h
+
+/-- Equality agrees with hashing: values that compare equal feed the same bytes to the hasher — for all values of
+    all kinds, across kinds (Int 0, Double -0.0 and Float 0.0; BigInt 2^60 and the Double 2^60; all NaNs). -/
+theorem eq_imp_hash_eq (a b : Value) (ha : a.Wf) (hb : b.Wf) (h : eq {} a b = true) :
+    hashKey {} a = hashKey {} b := by
+  rw [eq_iff_key] at h
+  by_cases hc : a.cls = 2
+  · have hcb : b.cls = 2 := by rw [← eqKey_cls, ← h, eqKey_cls]; exact hc
+    obtain ⟨x, hx⟩ := (ext_isSome_iff a).mp hc
+    have hkx : a.eqKey = .num x := by
+      cases a <;> simp only [Value.cls] at hc <;> first | omega | skip
+      all_goals (simp only [Value.ext, Option.some.injEq] at hx; subst hx; rfl)
+    have hxb : b.ext = some x := eqKey_num_ext b x (h ▸ hkx)
+    obtain ⟨ta, hta, _⟩ := toF64_some a ha hc
+    obtain ⟨tb, htb, _⟩ := toF64_some b hb hcb
+    rw [hashKey_num a ta hc hta, hashKey_num b tb hcb htb, canon_of_ext_eq a b ha hb x hx hxb ta tb hta htb]
+  · cases a <;> simp only [Value.cls, not_true_eq_false] at hc
+    all_goals
+      cases b <;> simp only [Value.eqKey, reduceCtorEq, EqKey.bool.injEq, EqKey.blob.injEq] at h
+    · rfl
+    · subst h; rfl
+    · subst h; rfl
+
+/-- The ORDER BY comparator (NULLs first, then `partial_cmp`) is a strict weak order, which is what `sort_by`
+    needs: antisymmetric, transitive, and "equal" is transitive. -/
+theorem sortCmp_weak_order :
+    (∀ a b, sortCmp {} b a = (sortCmp {} a b).swap) ∧
+    (∀ a b c, a.cls = b.cls → b.cls = c.cls → sortCmp {} a b = .lt → sortCmp {} b c = .lt → sortCmp {} a c = .lt) ∧
+    (∀ a b c, a.cls = b.cls → b.cls = c.cls → sortCmp {} a b = .eq → sortCmp {} b c = .eq → sortCmp {} a c = .eq) := by
+  have key : ∀ a b : Value, a.cls = b.cls → a.cls ≠ 0 → partialCmp {} a b = some (sortCmp {} a b) := by
+    intro a b h1 h2
+    have := (cmp_total_order.1 a b).mpr ⟨h1, h2⟩
+    obtain ⟨o, ho⟩ := Option.isSome_iff_exists.mp this
+    rw [sortCmp_nonnull {} a b h2 (h1 ▸ h2), ho]; rfl
+  refine ⟨fun a b => ?_, fun a b c hab hbc h1 h2 => ?_, fun a b c hab hbc h1 h2 => ?_⟩
+  · by_cases ha : a.cls = 0
+    · rw [(cls_zero_iff a).mp ha]; cases b <;> rfl
+    · by_cases hb : b.cls = 0
+      · rw [(cls_zero_iff b).mp hb]; cases a <;> first | rfl | exact absurd rfl ha
+      · rw [sortCmp_nonnull {} a b ha hb, sortCmp_nonnull {} b a hb ha, cmp_total_order.2.1 a b]
+        cases partialCmp {} a b <;> rfl
+  · by_cases h0 : a.cls = 0
+    · rw [(cls_zero_iff a).mp h0, (cls_zero_iff b).mp (hab ▸ h0)] at h1; exact absurd h1 (by decide)
+    · have p1 := key a b hab h0
+      have p2 := key b c hbc (hab ▸ h0)
+      have p3 := key a c (hab.trans hbc) h0
+      rw [h1] at p1; rw [h2] at p2
+      have := cmp_total_order.2.2.1 a b c p1 p2
+      rw [p3] at this
+      exact Option.some.inj this
+  · by_cases h0 : a.cls = 0
+    · rw [(cls_zero_iff a).mp h0, (cls_zero_iff c).mp ((hab.trans hbc) ▸ h0)]; rfl
+    · have p1 := key a b hab h0
+      have p2 := key b c hbc (hab ▸ h0)
+      have p3 := key a c (hab.trans hbc) h0
+      rw [h1] at p1; rw [h2] at p2
+      have e1 := (cmp_total_order.2.2.2 a b).mp p1
+      have e2 := (cmp_total_order.2.2.2 b c).mp p2
+      have e3 := eq_equivalence.2.2 a b c e1.1 e2.1
+      have := (cmp_total_order.2.2.2 a c).mpr ⟨e3, h0⟩
+      rw [p3] at this
+      exact Option.some.inj this
+
+/-! ### the shipped code (comparison through `f64`, IEEE NaN, raw-bit hashing): full statements, what holds, witnesses -/
+
+/-- full statement (not claimed for the shipped code — refuted below): as shipped, comparison is by mathematical value -/
+def shipped_cmp_is_mathematical_statement : Prop :=
+  ∀ a b : Value, a.Wf → b.Wf →
+    partialCmp Defects.asShipped a b = partialCmp {} a b ∧ eq Defects.asShipped a b = eq {} a b
+
+/-- full statement (refuted below): as shipped, equality is reflexive -/
+def shipped_eq_reflexive_statement : Prop := ∀ a : Value, a.Wf → eq Defects.asShipped a a = true
+
+/-- full statement (refuted below): as shipped, equal values hash equally -/
+def shipped_eq_imp_hash_eq_statement : Prop :=
+  ∀ a b : Value, a.Wf → b.Wf → eq Defects.asShipped a b = true → hashKey Defects.asShipped a = hashKey Defects.asShipped b
+
+/-- What holds as shipped: on safe values (integers of magnitude ≤ 2^53, no NaN) the comparison through `f64` is
+    the comparison by exact value — so there equality is an equivalence and the order total, by the theorems above. -/
+theorem shipped_cmp_is_mathematical_partial (a b : Value) (ha : a.Wf) (hb : b.Wf) (sa : a.Safe) (sb : b.Safe) :
+    partialCmp Defects.asShipped a b = partialCmp {} a b ∧ eq Defects.asShipped a b = eq {} a b :=
+  shipped_cmp_agrees a b ha hb sa sb
+
+/-- As shipped, the numeric comparison is IEEE `partial_cmp` of the two `f64` images on their bit patterns. -/
+theorem shipped_numeric_cmp_is_ieee (a b : Value) (ta tb : Nat) (hta : a.toF64 = some ta) (htb : b.toF64 = some tb) :
+    numCmp Defects.asShipped a b = ieeeCmp ta tb := shipped_numCmp_is_ieee a b ta tb hta htb
+
+/-- What holds as shipped: equal values hash equally unless a negative zero is involved (at any magnitude — the
+    collisions of big integers are consistent between `==` and `Hash`). -/
+theorem shipped_eq_imp_hash_eq_partial (a b : Value) (ha : a.Wf) (hb : b.Wf)
+    (hza : a.toF64 ≠ some 9223372036854775808) (hzb : b.toF64 ≠ some 9223372036854775808)
+    (h : eq Defects.asShipped a b = true) : hashKey Defects.asShipped a = hashKey Defects.asShipped b :=
+  shipped_eq_imp_hash_eq a b ha hb hza hzb h
+
+/-- Shipped defect `numericViaF64` (fixed by 57ea8a0): the BIGINTs 2^53 and 2^53 + 1 compare equal. -/
+theorem big_int_collision_witness :
+    eq { numericViaF64 := true } (.bigint 9007199254740992) (.bigint 9007199254740993) = true ∧
+    partialCmp { numericViaF64 := true } (.bigint 9007199254740992) (.bigint 9007199254740993) = some .eq ∧
+    partialCmp {} (.bigint 9007199254740992) (.bigint 9007199254740993) = some .lt ∧
+    ¬ shipped_cmp_is_mathematical_statement := by
+  refine ⟨by decide +kernel, by decide +kernel, by decide +kernel, fun h => ?_⟩
+  have := (h (.bigint 9007199254740992) (.bigint 9007199254740993) (by decide) (by decide)).2
+  revert this
+  decide +kernel
+
+/-- Shipped defect `nanUnordered` (fixed by 38f555e): NaN is not equal to itself and is unordered, and the ORDER BY
+    comparator is then not transitive (1 ~ NaN ~ 2 but 1 < 2). -/
+theorem nan_irreflexive_witness :
+    eq { nanUnordered := true } (.double 9221120237041090560) (.double 9221120237041090560) = false ∧
+    partialCmp { nanUnordered := true } (.double 9221120237041090560) (.double 4607182418800017408) = none ∧
+    (sortCmp { nanUnordered := true } (.int 1) (.double 9221120237041090560) = .eq ∧
+     sortCmp { nanUnordered := true } (.double 9221120237041090560) (.int 2) = .eq ∧
+     sortCmp { nanUnordered := true } (.int 1) (.int 2) = .lt) ∧
+    ¬ shipped_eq_reflexive_statement := by
+  refine ⟨by decide +kernel, by decide +kernel, ⟨by decide +kernel, by decide +kernel, by decide +kernel⟩, fun h => ?_⟩
+  have := h (.double 9221120237041090560) (by decide)
+  revert this
+  decide +kernel
+
+/-- Shipped defect `hashRawBits` (fixed by c1c2e9c): 0.0 == -0.0 but their hashes differ. -/
+theorem neg_zero_hash_witness :
+    eq Defects.asShipped (.double 0) (.double 9223372036854775808) = true ∧
+    hashKey Defects.asShipped (.double 0) ≠ hashKey Defects.asShipped (.double 9223372036854775808) ∧
+    ¬ shipped_eq_imp_hash_eq_statement := by
+  refine ⟨by decide +kernel, by decide +kernel, fun h => ?_⟩
+  have := h (.double 0) (.double 9223372036854775808) (by decide) (by decide) (by decide +kernel)
+  revert this
+  decide +kernel
+
 /-- Non-vacuity of the hypotheses above. -/
 example : Value.Wf (.blob [1, 2, 3]) ∧ Value.Wf (.double 9221120237041090560) ∧ Value.Wf (.int (-2147483648)) := by decide
+example : Value.Safe (.bigint (-9007199254740992)) ∧ ¬ Value.Safe (.bigint 9007199254740993) ∧ Value.Safe (.double 9218868437227405312) := by decide
 example : Kind.InRange .uint 4294967295 ∧ ¬ Kind.InRange .uint (-1) := by decide
 example : VarInt.InI64 (-9223372036854775808) ∧ VarInt.InI64 9223372036854775807 := by decide
 example : VarInt.decode (VarInt.encode (-9223372036854775808) ++ [7]) = some (-9223372036854775808, [7]) := by decide
